@@ -377,6 +377,33 @@ def native_replay(job, src, test_code, logdir):
     return out
 
 
+def native_cargo_test(base_src, scratch, files, test_name, logdir, tag):
+    """Replay for E2/E3 counterexamples: append `files` {relative path: code} to a
+    fresh copy of the (un-injected) snapshot and run the named #[test] natively in
+    the dev profile and with release semantics. reproduced = the test fails."""
+    dst = os.path.join(scratch, "nsrc_" + tag)
+    shutil.rmtree(dst, ignore_errors=True)
+    subprocess.run(["cp", "-a", base_src, dst], check=True)
+    for rel, code in files.items():
+        with open(os.path.join(dst, rel), "a") as f:
+            f.write("\n" + code + "\n")
+    out = {}
+    for prof in ("dev", "release"):
+        logf = os.path.join(logdir, "%s.native.%s.log" % (tag, prof))
+        env = dict(ENV)
+        if prof == "release":
+            env.update({"CARGO_PROFILE_TEST_OVERFLOW_CHECKS": "false", "CARGO_PROFILE_TEST_DEBUG_ASSERTIONS": "false", "CARGO_PROFILE_TEST_OPT_LEVEL": "2"})
+        cmd = ["cargo", "test", "--offline", "--lib", "--target-dir", os.path.join(scratch, "ntarget_" + prof), test_name]
+        rc, wall, to = run_limited(cmd, dst, logf, 900, 16, env=env)
+        txt = open(logf, errors="replace").read()
+        ran = re.search(r"test result: (\w+)\. (\d+) passed; (\d+) failed", txt)
+        out[prof] = {"rc": rc, "ran": bool(ran and int(ran.group(2)) + int(ran.group(3)) > 0), "failed": bool(ran and int(ran.group(3)) > 0),
+                     "panic": re.findall(r"panicked at ([^\n]*\n[^\n]*)", txt)[:2], "log": logf}
+    out["reproduced"] = any(out[p]["failed"] for p in ("dev", "release"))
+    out["ran"] = all(out[p]["ran"] for p in ("dev", "release"))
+    return out
+
+
 # --------------------------------------------------------------------------
 # known findings
 # --------------------------------------------------------------------------
@@ -478,7 +505,7 @@ def check_property(prop, tier, seed, only=None):
         kani_jobs = [j for j in jobs if j.kind == "kani"]
         other_jobs = [j for j in jobs if j.kind != "kani"]
         # E2/E3 jobs work on their own MIR dump of the un-injected snapshot
-        ctx = {"src": src, "scratch": scratch, "logdir": logdir, "steps": steps, "tier": tier}
+        ctx = {"src": src, "scratch": scratch, "logdir": logdir, "steps": steps, "tier": tier, "pid": pid}
         if other_jobs:
             from mirq import prepare_mir
             prepare_mir(ctx)
@@ -546,7 +573,10 @@ def check_property(prop, tier, seed, only=None):
         confirmed = []
         for j, r in violations:
             if j.kind != "kani":
-                confirmed.append((j, r, r.get("replay_path")))
+                if r.get("replay_mismatch"):
+                    inconclusive.append((j.name, "REPLAY-MISMATCH: " + r["replay_mismatch"]))
+                else:
+                    confirmed.append((j, r, r.get("replay_path")))
                 continue
             rsrc = os.path.join(scratch, "rsrc")
             if not os.path.isdir(rsrc):
